@@ -14,7 +14,7 @@ CLAIMED = {
         design="5/C08"),
     "C14": dict(
         technique="TLA+ abstract spec StopAbs (handle algebra + request_stop/callback protocol) and fine-grained StopStateImpl (lock word load/CAS/spin, callback list, is_removed hand-shake) model-checked by TLC + TLC trace validation of sequential and concurrent histories from the real stop_source/stop_token/stop_callback",
-        text="TLC proves one-winner, callback-at-most-once, no-run-after-destructor, destructor-waits, source-count bookkeeping and registered-callback-runs (fair) on the abstract spec, shows each named deviation violates them, and proves the same on StopStateImpl for every interleaving of 2 (thorough: 3) requesters, registrations and destructors with four variants that re-create the repaired defects and a seeded change; recorded histories of the real objects (handle copy/move/assign/swap sequences; concurrent request_stop / callback construction / destruction incl. from inside callbacks, on pika tasks and OS threads, with delays injected at the st.* hooks between load and CAS) must be behaviours of the spec",
+        text="TLC proves one-winner, callback-at-most-once, no-run-after-destructor, destructor-waits, source-count bookkeeping and registered-callback-runs (fair) on the abstract spec, shows each named deviation violates them, and proves the same on StopStateImpl for every interleaving of 2 (thorough: 3) requesters, registrations and destructors with four variants that re-create the repaired defects and a seeded change; recorded histories of the real objects (handle copy/move/assign/swap sequences; concurrent request_stop / callback construction / destruction incl. from inside callbacks, on pika tasks and OS threads, with delays injected at the st.* hooks between load and CAS) must be behaviours of the spec; a chase scenario lets a destroyer follow request_stop through 12 callbacks",
         note="sequential consistency; sampled schedules widened by hook delays, not exhaustive; handle objects themselves are used from one thread at a time (documented precondition)",
         design="5/C14"),
     "C17": dict(
@@ -44,12 +44,12 @@ CLAIMED = {
         design="5/C01"),
     "C05": dict(
         technique="TLA+ abstract life-cycle spec LifeAbs and fine-grained activity-counter spec ActivityImpl model-checked by TLC + TLC trace validation of multi-incarnation life-cycle histories (start/wait/suspend/resume/finalize/stop) from the real runtime",
-        text="TLC checks the wait/stop post-conditions on the counter protocol (increment before the task is visible, decrement after termination; both swapped variants must fail) and on the API-level spec; real histories with 8 restarts per process, work submitted by the entry function, external threads, during suspension and while stop() is already waiting must be behaviours of LifeAbs: wait_ret only after the snapshot and its descendants exited, nothing runs while suspended, stop_ret only after finalize with all work done and with the entry function's result",
+        text="TLC checks the wait/stop post-conditions on the counter protocol (increment before the task is visible, decrement after termination; both swapped variants must fail) and on the API-level spec; real histories with 8 restarts per process, work submitted by the entry function, external threads, during suspension and while stop() is already waiting must be behaviours of LifeAbs: wait_ret only after the snapshot and its descendants exited, nothing runs while suspended, stop_ret only after finalize with all work done and with the entry function's result; relays of tasks each creating its successor (one wait() per relay), trickle forests, small thread_queue.max_thread_count, 8 and 16 workers",
         note="sequential consistency; sampled schedules; life-cycle calls issued by one driver thread as documented",
         design="5/C05"),
     "C13": dict(
         technique="TLA+ abstract spec ThreadAbs (handles, body, interruption, stop, exit callbacks; Call/Lin/Ret) + fine-grained JoinImpl (exit-callback list vs. join registration) and WakeImpl model-checked by TLC; TLC trace validation of thread/jthread histories from the real runtime",
-        text="TLC checks on JoinImpl that join returns (fair) and only after the body, with every callback run once, for every interleaving of join with the exit-callback loop, and shows the pre-fix loop violates it; recorded histories of real pika::thread/jthread handles (join before/during/after termination, double join, detach, jthread destruction, interrupt with enabled/disabled scopes, stop tokens, user exit callbacks; 4 policies x 1-4 workers; delays at join.*/exitcb.*/state-word hooks) must be behaviours of ThreadAbs, including the 'body finished' flag the joiner reads right after join",
+        text="TLC checks on JoinImpl that join returns (fair) and only after the body, with every callback run once, for every interleaving of join with the exit-callback loop, and shows the pre-fix loop violates it; recorded histories of real pika::thread/jthread handles (join before/during/after termination, double join, detach, jthread destruction, interrupt with enabled/disabled scopes, stop tokens, user exit callbacks; 4 policies x 1-4 workers; delays at join.*/exitcb.*/state-word hooks) must be behaviours of ThreadAbs, including the 'body finished' flag the joiner reads right after join; a permit released and the thread interrupted right afterwards (the interruption meets a pending task)",
         note="sequential consistency; sampled schedules; one open finding (join may return before earlier-registered exit callbacks ran) is listed in known_findings.json",
         design="5/C13"),
     "C09": dict(
@@ -69,23 +69,23 @@ CLAIMED = {
         design="5/C04"),
     "C11": dict(
         technique="TLA+ transcription BulkImpl of the chunking arithmetic (word width as a constant) and IndexQueueImpl model-checked by TLC; abstract spec BulkAbs with TLC trace validation of per-call histories (small shapes) and measured summaries (large shapes) from the real bulk",
-        text="TLC checks for every n <= 72 and 1-4 workers that the transcribed chunk computation terminates and partitions [0,n) exactly, and that narrow-word arithmetic (the pre-fix code) does not; the owner/thief protocol of the index queues is checked exhaustively; real bulk runs on two pools over boundary shapes, 5 shape types, throwing sets and shapes around 2^31/2^32 must satisfy BulkAbs: each index called exactly once with unchanged values, no call outside [0,n), exactly one completion after the last call returned, an error drawn from the thrown ones",
+        text="TLC checks for every n <= 72 and 1-4 workers that the transcribed chunk computation terminates and partitions [0,n) exactly, and that narrow-word arithmetic (the pre-fix code) does not; the owner/thief protocol of the index queues is checked exhaustively; real bulk runs on two pools over boundary shapes, 5 shape types, throwing sets and shapes around 2^31/2^32 must satisfy BulkAbs: each index called exactly once with unchanged values, no call outside [0,n), exactly one completion after the last call returned, an error drawn from the thrown ones; shapes of one index per worker whose calls return together, and bursts of tiny bulk operations with live operation states (exactly one completion each)",
         note="sequential consistency; indices above 2^26 verified by count and sum only; schedules sampled",
         design="5/C11"),
     "C10": dict(
         category="model_checking",
         technique="TLA+ monitor spec PlaceAbs (placement rule as action guards) checked by TLC on a closed model + TLC trace validation of placement records emitted by every callable of random cross-pool pipelines and hinted tasks on the real runtime",
-        text="the rule (task of the target pool, never in the submitting context, hinted worker on static policies for every phase, fresh non-pika thread for std_thread_scheduler) is a TLA+ action guard; TLC validates every placement record of random pipelines over three pools (schedule/transfer_just/continues_on/then/bulk/execute, from inside and outside the runtime) and of hinted multi-phase tasks that yield or block between phases while wake-ups race with the context switch; the end-of-history record also requires that exactly the expected number of callables ran",
+        text="the rule (task of the target pool, never in the submitting context, hinted worker on static policies for every phase, fresh non-pika thread for std_thread_scheduler) is a TLA+ action guard; TLC validates every placement record of random pipelines over three pools (schedule/transfer_just/continues_on/then/bulk/execute, from inside and outside the runtime) and of hinted multi-phase tasks that yield or block between phases while wake-ups race with the context switch; the end-of-history record also requires that exactly the expected number of callables ran; hinted tasks also back off with boosted yields (yield_while) between phases",
         note="there is no interesting interleaving model here: TLC acts as trace monitor and as enumerator of the rule's cases; only the value channel is claimed",
         design="5/C10"),
     "C15": dict(
         technique="TLA+ spec AffinityAbs (the binding predicate over a configuration and an outcome); TLC enumerates the configuration space (AffinityCases) and validates, as a trace, what the live runtime reports for every enumerated configuration",
-        text="TLC enumerates ~10k configurations (6 synthetic topologies x all process masks up to 6 PUs / windows and strides above x thread counts incl. |mask|+1 and the keywords cores/all x 5 binding modes x a second pool) and a hash-selected sample (all of 1/4 in thorough) plus every 'hard' case (SMT, holes in the mask, more workers than cores) is executed by the real runtime under HWLOC_SYNTHETIC, plus random taskset masks on the real machine with OS-reported affinity; every outcome must satisfy the TLA+ predicate: one PU per worker inside the mask, no sharing, reported = bound, exactly one pool per worker, impossible requests rejected, 'none' unbound",
+        text="TLC enumerates ~10k configurations (6 synthetic topologies x all process masks up to 6 PUs / windows and strides above x thread counts incl. |mask|+1 and the keywords cores/all x 5 binding modes x a second pool) and a hash-selected sample (all of 1/4 in thorough) plus every 'hard' case (SMT, holes in the mask, more workers than cores) is executed by the real runtime under HWLOC_SYNTHETIC, plus random taskset masks on the real machine with OS-reported affinity; every outcome must satisfy the TLA+ predicate: one PU per worker inside the mask, no sharing, reported = bound, exactly one pool per worker, impossible requests rejected, 'none' unbound; topologies with the OS numbering Linux gives SMT siblings are mapped onto the real machine (HWLOC_THISSYSTEM) so that the kernel-reported affinity is compared with the PU pika reports",
         note="TLC is used as enumerator and as evaluator of the predicate (no interleavings involved); multi-socket/SMT binding only via the masks pika computes under synthetic hwloc; one open finding (bind=none oversubscription)",
         design="5/C15"),
     "C16": dict(
         technique="TLA+ spec ConfigAbs (resolution rule over sources, with named deviations); TLC enumerates every source/value assignment per setting (ConfigCases) and judges, as a trace, the value the live runtime actually uses for each",
-        text="TLC enumerates all 4703 assignments of {absent, valid A, valid B, invalid, keyword} to the sources (environment variable, specific option and --pika:ini entry inside PIKA_COMMANDLINE_OPTIONS, --pika:ini and specific option on the command line) of six settings; each case (quick: 900 sampled) is started for real and the value in use is read from the live runtime (worker count, scheduler, per-worker masks, stack size of a default task, config entry), not from the parsed options; TLC evaluates the resolution rule on every outcome and names the deviation that explains a rejected one; unknown options and non-pika argument pass-through are covered too",
+        text="TLC enumerates all 4703 assignments of {absent, valid A, valid B, invalid, keyword} to the sources (environment variable, specific option and --pika:ini entry inside PIKA_COMMANDLINE_OPTIONS, --pika:ini and specific option on the command line) of six settings; each case (quick: 900 sampled) is started for real and the value in use is read from the live runtime (worker count, scheduler, per-worker masks, stack size of a default task, config entry), not from the parsed options; TLC evaluates the resolution rule on every outcome and names the deviation that explains a rejected one; unknown options and non-pika argument pass-through are covered too; a default shipped by the application in init_params::cfg is a further source (it replaces the built-in default and loses against command line and PIKA_COMMANDLINE_OPTIONS)",
         note="TLC is enumerator and evaluator of the rule (no interleavings); one setting varied at a time; two open findings (duplicate option across PIKA_COMMANDLINE_OPTIONS and command line aborts; invalid stack size silently ignored)",
         design="5/C16"),
     "C18": dict(
@@ -106,7 +106,7 @@ CLAIMED = {
         design="5/C12"),
     "C03": dict(
         technique="TLA+ denotational spec SenderSem (completion-signal semantics of the adaptors) whose terms and denotations TLC enumerates (SenderCases) and replays on the real adaptors; fine-grained specs SharedStateImpl (split/ensure_started shared state) and WhenAllImpl (when_all operation state) model-checked by TLC; step-level TLC validation of the shared state's hooked steps (SharedStateStepTrace)",
-        text="model-based testing in the spec->implementation direction: TLC enumerates all 1228 sender terms up to depth 3 over value/error/stopped leaves and then/let_value/let_error/continues_on/ensure_started/split (1 and 2 consumers)/drop_operation_state/when_all with the set of completion signals the spec admits; every term is built from type-erased stages and run on the real adaptors with leaves completing inline, from another thread or on the pool, and the connected receiver must see exactly one signal, on an admitted channel, with the admitted payload, with every payload and error object destroyed exactly once; TLC proves on SharedStateImpl that a continuation added concurrently with the predecessor's completion is run exactly once under every interleaving (and that publishing the flag after the lock hand-shake loses it), the shared-state terms are re-run hundreds of times with the consumer's start swept across the predecessor's completion, when_all terms with two failing inputs thousands of times with simultaneous completions, and the hooked steps of the real shared state (flag, lock hand-shake, continuation store, deliveries) are validated by TLC as SharedStateImpl's steps in SharedStateImpl's order",
+        text="model-based testing in the spec->implementation direction: TLC enumerates all 1228 sender terms up to depth 3 over value/error/stopped leaves and then/let_value/let_error/continues_on/ensure_started/split (1 and 2 consumers)/drop_operation_state/when_all with the set of completion signals the spec admits; every term is built from type-erased stages and run on the real adaptors with leaves completing inline, from another thread or on the pool, and the connected receiver must see exactly one signal, on an admitted channel, with the admitted payload, with every payload and error object destroyed exactly once; TLC proves on SharedStateImpl that a continuation added concurrently with the predecessor's completion is run exactly once under every interleaving (and that publishing the flag after the lock hand-shake loses it), the shared-state terms are re-run hundreds of times with the consumer's start swept across the predecessor's completion, when_all terms with two failing inputs thousands of times with simultaneous completions, and the hooked steps of the real shared state (flag, lock hand-shake, continuation store, deliveries) are validated by TLC as SharedStateImpl's steps in SharedStateImpl's order; the term split2r makes every consumer of a split recover the error it is handed",
         note="sequential consistency in the model; schedules of the real adaptors are sampled; terms up to depth 3 with one value type; stop requests travelling upstream through stop tokens are not part of the terms",
         design="5/C03"),
 }
